@@ -75,7 +75,8 @@ func NewStarRun(cfg StarCfg, rcfg RunCfg) (*Star, error) {
 			Remote:   control.LinkEnd{IA: f.Remote},
 			LinkTo:   f.LinkTo,
 			MTU:      f.MTU,
-			BFD:      control.BFD{Disable: ptr.To(!f.BFD)},
+			BFD: control.BFD{Disable: ptr.To(!f.BFD), DetectMult: f.BFDMult, DesiredMinTxInterval: f.BFDTx,
+				RequiredMinRxInterval: f.BFDRx},
 		}
 		var lh, rh addr.Host
 		if f.Owned {
